@@ -407,6 +407,14 @@ impl WriteBuffer {
                         .any(|shard_id| {
                             sharded_buffers[shard_id].count.load(Ordering::Relaxed) > 0
                         });
+                    #[cfg(feoxdb_verif)]
+                    crate::verif::proto::event(
+                        crate::verif::proto::Kind::Tick,
+                        (pending || (worker_id == 0 && retirements_pending)) as u64 * (worker_id as u64 + 1),
+                        sharded_buffers.len() as u64,
+                        &[],
+                        worker_channels.len() as u64,
+                    );
                     if pending || (worker_id == 0 && retirements_pending) {
                         let _ = channel.try_send(FlushRequest {
                             response: None,
@@ -495,6 +503,16 @@ impl WriteBuffer {
     pub(crate) fn finish_shutdown(&self) {
         // Ensure shutdown flag is set
         self.shutdown.store(true, Ordering::Release);
+
+        #[cfg(feoxdb_verif)]
+        if crate::verif::proto::fast_shutdown_enabled() {
+            for channel in &self.worker_channels {
+                let _ = channel.try_send(FlushRequest {
+                    response: None,
+                    defer_retirements: false,
+                });
+            }
+        }
 
         if let Some(handle) = self.periodic_flush_handle.lock().take() {
             let _ = handle.join();
@@ -842,6 +860,8 @@ fn release_retirement_group(
 
     match free_space.release_sectors(sector, sectors_needed) {
         Ok(()) => {
+            #[cfg(feoxdb_verif)]
+            crate::verif::proto::event(crate::verif::proto::Kind::Release, sector, sectors_needed, &[], 0);
             *released_sectors += sectors_needed;
             stats
                 .disk_usage
@@ -932,6 +952,14 @@ fn process_write_batch(
                 Some(sector) => sector,
                 None => match free_space_guard.allocate_sectors(sectors_needed as u64) {
                     Ok(sector) => {
+                        #[cfg(feoxdb_verif)]
+                        crate::verif::proto::event(
+                            crate::verif::proto::Kind::Alloc,
+                            sector,
+                            sectors_needed as u64,
+                            &prepared_writes[index].entry.record.key,
+                            prepared_writes[index].entry.record.timestamp,
+                        );
                         reserve_sector(&prepared_writes[index].entry, sector);
                         stats.disk_usage.fetch_add(
                             (sectors_needed * FEOX_BLOCK_SIZE) as u64,
@@ -1110,6 +1138,14 @@ fn process_write_batch(
                 .store(write.sector.unwrap(), Ordering::Release);
             std::sync::atomic::fence(Ordering::Release);
             write.entry.record.clear_value();
+            #[cfg(feoxdb_verif)]
+            crate::verif::proto::event(
+                crate::verif::proto::Kind::Publish,
+                write.sector.unwrap(),
+                write.sectors_needed as u64,
+                &write.entry.record.key,
+                write.entry.record.timestamp,
+            );
         }
         stats.record_write_flushed(prepared_writes.len() as u64);
     }
@@ -1190,6 +1226,14 @@ fn release_allocations(
         }
         match free_space_guard.release_sectors(sector, allocation.sectors_needed as u64) {
             Ok(()) => {
+                #[cfg(feoxdb_verif)]
+                crate::verif::proto::event(
+                    crate::verif::proto::Kind::Release,
+                    sector,
+                    allocation.sectors_needed as u64,
+                    &[],
+                    0,
+                );
                 stats.disk_usage.fetch_sub(
                     (allocation.sectors_needed * FEOX_BLOCK_SIZE) as u64,
                     Ordering::Relaxed,
@@ -1275,6 +1319,8 @@ fn release_scrubbed_allocations(
 
         match free_space.release_sectors(sector, sectors_needed) {
             Ok(()) => {
+                #[cfg(feoxdb_verif)]
+                crate::verif::proto::event(crate::verif::proto::Kind::Release, sector, sectors_needed, &[], 0);
                 stats
                     .disk_usage
                     .fetch_sub(sectors_needed * FEOX_BLOCK_SIZE as u64, Ordering::Relaxed);
